@@ -11,3 +11,10 @@ open PubModel.C17
 #print axioms gen_tarzip_guarded
 #print axioms gen_writes_use_joined
 #print axioms gen_modes_kept
+#print axioms zip_roundtrip
+#print axioms zip_entries_accepted
+#print axioms unzip_writes_contained
+#print axioms untar_writes_contained
+#print axioms tarzip_contained
+#print axioms tarzip_hostile_refused
+#print axioms zipfile_roundtrip
